@@ -115,10 +115,14 @@ func c09OutPoint(name string) *wire.OutPoint {
 func c09EvalHistory(w *mc.W, h c09History) {
 	c := w.Ctx()
 	fail := func(class, detail string) { c.Violate(class, "history", h, detail) }
+	altFull := false
 	mk := func(cfg c09Config, alt bool) (*wire.MsgFilterLoad, *ref.Bloom) {
 		data := bytes.Repeat([]byte{byte(cfg.Prefill)}, cfg.Bytes)
 		if alt { // the message used by Reload: different geometry
 			data = bytes.Repeat([]byte{0x11}, cfg.Bytes+1)
+		}
+		if alt && altFull { // "reloadF": a saturated message (every bit set)
+			data = bytes.Repeat([]byte{0xff}, cfg.Bytes+1)
 		}
 		msg := wire.NewMsgFilterLoad(data, cfg.HashFuncs, cfg.Tweak, wire.BloomUpdateType(cfg.Flags))
 		return msg, ref.NewBloom(data, cfg.HashFuncs, cfg.Tweak, byte(cfg.Flags))
@@ -169,7 +173,8 @@ func c09EvalHistory(w *mc.W, h c09History) {
 					detachedWant = append(detachedWant, model.Bytes())
 				}
 				loaded = false
-			case op == "reload":
+			case op == "reload" || op == "reloadF":
+				altFull = op == "reloadF"
 				if loaded {
 					detached = append(detached, curMsg)
 					detachedWant = append(detachedWant, model.Bytes())
@@ -508,6 +513,31 @@ func runC09(c *mc.Ctx) {
 			rec(nil)
 		}
 		c.Space("histories of <= 3 (4) operations over outpoints with three different hashes, two hashes and two items passed through one argument variable", int64(len(hs)))
+		c.ParFor(int64(len(hs)), func(w *mc.W, i int64) {
+			w.State()
+			c09EvalHistory(w, hs[i])
+		})
+	}
+	// (1d) SATURATED filters (every bit set when loaded, or reloaded with such a message): everything
+	// matches while loaded and nothing once unloaded - a "full" shortcut must follow the load state.
+	// Every history of <= 4 (5) operations over a 9-op menu on filters prefilled with 0xff.
+	{
+		fm := []string{"add:5", "m:5", "m:7h", "mop:oM", "reload", "reloadF", "unload", "isloaded", "addop:oN"}
+		var hs []c09History
+		for _, cfg := range []c09Config{{Bytes: 1, Prefill: 0xff, HashFuncs: 1, Tweak: 0, Flags: 0}, {Bytes: 8, Prefill: 0xff, HashFuncs: 5, Tweak: 7, Flags: 1}, {Bytes: 3, Prefill: 0, HashFuncs: 2, Tweak: 7, Flags: 1}} {
+			var rec func(ops []string)
+			rec = func(ops []string) {
+				hs = append(hs, c09History{Cfg: cfg, Ops: append([]string{}, ops...)})
+				if len(ops) == mc.Pick(c, 4, 5) {
+					return
+				}
+				for _, a := range fm {
+					rec(append(ops, a))
+				}
+			}
+			rec(nil)
+		}
+		c.Space("histories of <= 4 (5) operations on saturated filters (prefill 0xff) and with reloads of a saturated message", int64(len(hs)))
 		c.ParFor(int64(len(hs)), func(w *mc.W, i int64) {
 			w.State()
 			c09EvalHistory(w, hs[i])
